@@ -452,9 +452,9 @@ func init() {
 	vfXModels["chan"] = &vfXModel{Name: "chan", NumOps: len(vfChOps), OpName: func(i int) string { return vfChOps[i].Name },
 		Exec: vfChExec, MaxDepth: func(th bool) int {
 			if th {
-				return 5
+				return 10
 			}
-			return 4
+			return 6
 		}}
 }
 
